@@ -77,8 +77,10 @@ static void make_files() { // per-process files for the command-line operations
 static void remove_files() { for (auto p : {FX.pA, FX.pAenc, FX.pOut, FX.pDec}) unlink(p.c_str()); rmdir(TMP.c_str()); }
 
 static const char *OPN[] = {"enc(T=1,n=0)", "enc(T=4,multi-chunk,CTR,md5)", "enc(T=16,n=40)", "dec(valid,T=2)", "dec(tampered)", "dec(wrong key)", "dec(mode byte out of range)", "verify(valid)", "verify(tampered)",
-                            "cli -e -i F -k K --cmode 1 -o O", "cli -e -d (two modes)", "cli -edv (fails inside a cluster)", "cli -d -i F.enc -k K -o O", "cli -v -i F.enc -k K", "cli -n -e (no input)", "cli --cmode 9 -e -i F", "dec(valid,T=4,10 chunks,pad-like)", "dec(valid,T=1,4 chunks,pad-like)", "enc(second key,T=2)", "dec(valid file of the second key,T=2)"};
-static const int NOPS = 20;
+                            "cli -e -i F -k K --cmode 1 -o O", "cli -e -d (two modes)", "cli -edv (fails inside a cluster)", "cli -d -i F.enc -k K -o O", "cli -v -i F.enc -k K", "cli -n -e (no input)", "cli --cmode 9 -e -i F", "dec(valid,T=4,10 chunks,pad-like)", "dec(valid,T=1,4 chunks,pad-like)", "enc(second key,T=2)", "dec(valid file of the second key,T=2)",
+                            "cli --cmode 99999999999999999999 -e -i F (number overflows)", "cli -e -i F -k K --cmode 2 --hmode 1 -o O"};
+static const int NOPS = 22;
+static bool is_cli(int op) { return (op >= 9 && op <= 15) || op >= 20; }
 static std::string do_op(int op) {
   unsigned char wrong[16];
   memcpy(wrong, KEY, 16);
@@ -103,6 +105,8 @@ static std::string do_op(int op) {
   case 16: { fo::OpResult r = fo::wc_decrypt(FX.file4, KEY, 4); return std::string("ret=") + (r.ret ? "1" : "0") + ",out=" + dig(r.out); }
   case 18: { fo::OpResult r = fo::wc_encrypt(FX.plainB, FX.key2, 1, 2, "s18", 2); return std::string("ret=") + (r.ret ? "1" : "0") + ",out=" + dig(r.out); }
   case 19: { fo::OpResult r = fo::wc_decrypt(FX.fileK2, FX.key2, 2); return std::string("ret=") + (r.ret ? "1" : "0") + ",out=" + dig(r.out); }
+  case 20: return exec_cli({"wencry", "--cmode", "99999999999999999999", "-e", "-i", FX.pA}, "", {}); // leaves errno = ERANGE (and whatever else a failed conversion leaves) behind
+  case 21: unlink(FX.pOut.c_str()); return exec_cli({"wencry", "-e", "-i", FX.pA, "-k", KEYTXT, "--cmode", "2", "--hmode", "1", "-o", FX.pOut}, FX.pOut, FX.plainA);
   case 17: { fo::OpResult r = fo::wc_decrypt(FX.file1, KEY, 1); return std::string("ret=") + (r.ret ? "1" : "0") + ",out=" + dig(r.out); }
   }
   return "?";
@@ -130,7 +134,7 @@ static std::string run_history(const Case &c) {
     if (o != SOLO[ops[i]] && bad.empty()) {
       std::string hist;
       for (size_t k = 0; k <= i; k++) hist += (k ? " ; " : "") + std::string(OPN[ops[k]]);
-      bad = std::string("differs-from-fresh-process:") + (ops[i] >= 9 && ops[i] <= 15 ? "cli" : "library") + "|operation #" + std::to_string(i + 1) + " of [" + hist + "] observes {" + o + "}, alone in a fresh process it observes {" + SOLO[ops[i]] + "}";
+      bad = std::string("differs-from-fresh-process:") + (is_cli(ops[i]) ? "cli" : "library") + "|operation #" + std::to_string(i + 1) + " of [" + hist + "] observes {" + o + "}, alone in a fresh process it observes {" + SOLO[ops[i]] + "}";
     }
   }
   remove_files();
@@ -184,6 +188,6 @@ int main(int argc, char **argv) {
   // solo observations are part of the report
   for (int op = 0; op < NOPS; op++) J().s("t", "info").s("operation", OPN[op]).s("alone_in_fresh_process", SOLO[op]).emit();
   for (int op = 0; op < NOPS; op++)
-    if (SOLO[op].rfind("DIED", 0) == 0) J().s("t", "viol").s("key", std::string("abnormal-end:solo:") + (op >= 9 ? "cli" : "library")).s("desc", std::string(OPN[op]) + " alone: " + SOLO[op]).raw("replay", J().s("harness", "histories").s("args", "tier=quick").s("single", "h=" + std::to_string(op)).str()).emit();
+    if (SOLO[op].rfind("DIED", 0) == 0) J().s("t", "viol").s("key", std::string("abnormal-end:solo:") + (is_cli(op) ? "cli" : "library")).s("desc", std::string(OPN[op]) + " alone: " + SOLO[op]).raw("replay", J().s("harness", "histories").s("args", "tier=quick").s("single", "h=" + std::to_string(op)).str()).emit();
   return main_loop(argc, argv, sp);
 }
